@@ -14,9 +14,14 @@
 //! with the model (and, for the first two, a round-trip failure).
 #![allow(dead_code)]
 
-use super::{bad, boolean, bytes, enc_any, err, n16, n32, n8, num, obj, okv, raw, raw_v, vb, vn, Dom, F, R, T, V};
+use super::{bad, boolean, bytes, enc_any, err, i16v, i32v, i8v, int, n16, n32, n8, num, obj, okv, raw, raw_v, vb, vi, vn, Dom, F, R, T, V};
 
-use core::num::NonZeroU8;
+use core::num::{NonZeroI16, NonZeroI32, NonZeroI64, NonZeroI8, NonZeroU8};
+
+use rs_matter::bitflags_tlv;
+use rs_matter::dm::clusters::decl::level_control::OptionsBitmap;
+use rs_matter::dm::clusters::decl::on_off::{Feature as OnOffFeature, OnOffControlBitmap};
+use rs_matter::reexport::bitflags::bitflags;
 
 use rs_matter::tlv::{FromTLV, Nullable, Octets, OctetsOwned, Skippable, TLVElement, ToTLV};
 use rs_matter::utils::storage::Vec as SVec;
@@ -53,6 +58,157 @@ fv_uint!(u8, 1, "u8", n8);
 fv_uint!(u16, 2, "u16", n16);
 fv_uint!(u32, 4, "u32", n32);
 fv_uint!(u64, 8, "u64", num);
+
+macro_rules! fv_sint {
+    ($t:ty, $bytes:expr, $name:expr, $conv:ident) => {
+        impl<'a> Fv<'a> for $t {
+            fn ty() -> T {
+                T::I($bytes, false)
+            }
+            fn desc() -> String {
+                $name.into()
+            }
+            fn of(v: &'a V) -> R<Self> {
+                $conv(v)
+            }
+            fn v(&self) -> R<V> {
+                Ok(vi(*self))
+            }
+        }
+    };
+}
+fv_sint!(i8, 1, "i8", i8v);
+fv_sint!(i16, 2, "i16", i16v);
+fv_sint!(i32, 4, "i32", i32v);
+fv_sint!(i64, 8, "i64", int);
+
+macro_rules! fv_nzsint {
+    ($t:ty, $prim:ty, $bytes:expr, $name:expr) => {
+        impl<'a> Fv<'a> for $t {
+            fn ty() -> T {
+                T::I($bytes, true)
+            }
+            fn desc() -> String {
+                $name.into()
+            }
+            fn of(v: &'a V) -> R<Self> {
+                <$t>::new(<$prim>::try_from(int(v)?).or(bad())?).ok_or("BADSLOT".to_string())
+            }
+            fn v(&self) -> R<V> {
+                Ok(vi(self.get()))
+            }
+        }
+    };
+}
+fv_nzsint!(NonZeroI8, i8, 1, "nzi8");
+fv_nzsint!(NonZeroI16, i16, 2, "nzi16");
+fv_nzsint!(NonZeroI32, i32, 4, "nzi32");
+fv_nzsint!(NonZeroI64, i64, 8, "nzi64");
+
+/// floats travel as bit patterns (NaN payloads, signed zeros and subnormals are values like any other)
+impl<'a> Fv<'a> for f32 {
+    fn ty() -> T {
+        T::F32
+    }
+    fn desc() -> String {
+        "f32".into()
+    }
+    fn of(v: &'a V) -> R<Self> {
+        Ok(f32::from_bits(n32(v)?))
+    }
+    fn v(&self) -> R<V> {
+        Ok(vn(self.to_bits()))
+    }
+}
+impl<'a> Fv<'a> for f64 {
+    fn ty() -> T {
+        T::F64
+    }
+    fn desc() -> String {
+        "f64".into()
+    }
+    fn of(v: &'a V) -> R<Self> {
+        Ok(f64::from_bits(num(v)?))
+    }
+    fn v(&self) -> R<V> {
+        Ok(vn(self.to_bits()))
+    }
+}
+
+/// `[X; N]` (the Rust impl needs `X: Default` to decode; the model takes `X::default()` from the declaration)
+impl<'a, X: Fv<'a> + 'a, const N: usize> Fv<'a> for [X; N] {
+    fn ty() -> T {
+        T::Fix(N, Box::new(X::ty()))
+    }
+    fn desc() -> String {
+        format!("fa {} {}", N, X::desc())
+    }
+    fn of(v: &'a V) -> R<Self> {
+        let V::Arr(xs) = v else { return bad() };
+        let items = xs.iter().map(|x| X::of(x)).collect::<R<std::vec::Vec<X>>>()?;
+        <[X; N]>::try_from(items).or(bad())
+    }
+    fn v(&self) -> R<V> {
+        Ok(V::Arr(self.iter().map(|x| x.v()).collect::<R<std::vec::Vec<V>>>()?))
+    }
+}
+
+/// `flags! { Name: uN (bytes, "bfN", conv) { FLAG = value, … } }`: a `bitflags!` type with `bitflags_tlv!`; the
+/// declaration text carries the union of the declared flags, computed from the same tokens. Values are built
+/// with `from_bits_retain` (a safe constructor): a value may hold undeclared bits.
+macro_rules! flags {
+    ($name:ident : $prim:ident ($bytes:expr, $tok:expr, $conv:ident) { $( $flag:ident = $val:expr ),* $(,)? }) => {
+        bitflags! {
+            #[repr(transparent)]
+            #[derive(Default, Debug, Clone, Copy, PartialEq, Eq, Hash)]
+            pub struct $name: $prim {
+                $( const $flag = $val; )*
+            }
+        }
+        bitflags_tlv!($name, $prim);
+        impl<'a> Fv<'a> for $name {
+            fn ty() -> T {
+                T::U($bytes, Dom::Mask(0u64 $( | ($val as u64) )*))
+            }
+            fn desc() -> String {
+                format!("{} {}", $tok, 0u64 $( | ($val as u64) )*)
+            }
+            fn of(v: &'a V) -> R<Self> {
+                Ok(<$name>::from_bits_retain($conv(v)?))
+            }
+            fn v(&self) -> R<V> {
+                Ok(vn(self.bits()))
+            }
+        }
+    };
+}
+flags! { FA: u8 (1, "bf8", n8) { A = 0x01, B = 0x04, C = 0x80 } }
+flags! { FB: u16 (2, "bf16", n16) { A = 0x0010, B = 0x0200, C = 0x4000 } }
+flags! { FC: u32 (4, "bf32", n32) { A = 0x1, B = 0x8000_0000, C = 0x0001_0000 } }
+flags! { FD: u64 (8, "bf64", num) { A = 0x1, B = 0x8000_0000_0000_0000, C = 0xff00 } }
+
+/// real generated bitmaps (`rs-matter-codegen` adds `const _INTERNAL_ALL_BITS = !0`: every bit is a declared flag)
+macro_rules! fv_real_flags {
+    ($name:ident, $bytes:expr, $tok:expr, $conv:ident, $full:expr) => {
+        impl<'a> Fv<'a> for $name {
+            fn ty() -> T {
+                T::U($bytes, Dom::Mask($full))
+            }
+            fn desc() -> String {
+                format!("{} {}", $tok, $full as u64)
+            }
+            fn of(v: &'a V) -> R<Self> {
+                Ok(<$name>::from_bits_retain($conv(v)?))
+            }
+            fn v(&self) -> R<V> {
+                Ok(vn(self.bits()))
+            }
+        }
+    };
+}
+fv_real_flags!(OnOffControlBitmap, 1, "bf8", n8, 0xffu64);
+fv_real_flags!(OptionsBitmap, 1, "bf8", n8, 0xffu64);
+fv_real_flags!(OnOffFeature, 4, "bf32", n32, 0xffff_ffffu64);
 
 impl<'a> Fv<'a> for bool {
     fn ty() -> T {
@@ -329,6 +485,12 @@ macro_rules! shape {
         pub struct $name { $( $(#[tagval($tv)])? pub $f: $($t)+, )* }
         shape!(@body $name [] "struct", 0, { $( $(#[tagval($tv)])? $f : [$($t)+] ),* });
     };
+    ($name:ident ($kind:tt, $start:tt, default) { $( $(#[tagval($tv:tt)])? $f:ident : [$($t:tt)+] ),* $(,)? }) => {
+        #[derive(FromTLV, ToTLV, Default)]
+        #[tlvargs(start = $start, datatype = $kind)]
+        pub struct $name { $( $(#[tagval($tv)])? pub $f: $($t)+, )* }
+        shape!(@body $name [] $kind, $start, { $( $(#[tagval($tv)])? $f : [$($t)+] ),* });
+    };
     ($name:ident ($kind:tt, $start:tt) { $( $(#[tagval($tv:tt)])? $f:ident : [$($t:tt)+] ),* $(,)? }) => {
         #[derive(FromTLV, ToTLV)]
         #[tlvargs(start = $start, datatype = $kind)]
@@ -463,6 +625,30 @@ pay_enum! { P03 (3) { A(D12), #[enumval(0)] B(E02) } }
 shape! { D30 ("struct", 0) { p: [P01], #[tagval(5)] q: [Option<P02>], r: [P03], k: [u8] } }
 shape! { D31 ("struct", 1) { ps: [SVec<P01, 3>], e: [Option<E03>] } }
 
+// signed integers of every width: plain, optional, nullable (`iN::MIN` reserved), both; non-zero
+shape! { D32 ("struct", 0) { a: [i8], b: [i16], c: [i32], d: [i64] } }
+shape! { D33 ("struct", 1) { a: [Option<i8>], b: [Nullable<i16>], #[tagval(9)] c: [Option<Nullable<i32>>], d: [Nullable<i64>], e: [Option<i64>], f: [Nullable<i8>], g: [Option<i16>], h: [Nullable<i32>] } }
+shape! { D34 ("list", 0) { a: [NonZeroI16], b: [Option<NonZeroI8>], #[tagval(20)] c: [Nullable<NonZeroI32>], d: [NonZeroI64], e: [i8], f: [u8] } }
+// floats (bit patterns)
+shape! { D35 ("struct", 0) { a: [f32], b: [f64], c: [Option<f32>], d: [Nullable<f64>], #[tagval(7)] e: [Option<Nullable<f32>>], f: [Option<f64>] } }
+// fixed-size arrays. A bare `[T; N]` field makes the derive panic at compile time (`normalize_fromtlv_type` only
+// takes a `Type::Path`), so bare arrays go through a type alias; inside `Option` / `Nullable` they are written out
+pub type U8x4 = [u8; 4];
+pub type U16x3 = [u16; 3];
+pub type U8x0 = [u8; 0];
+pub type U8x2x2 = [[u8; 2]; 2];
+pub type F32x2 = [f32; 2];
+pub type Boolx3 = [bool; 3];
+pub type I64x2 = [i64; 2];
+pub type FAx2 = [FA; 2];
+shape! { D36 ("struct", 0, default) { a: [u8], b: [i16], c: [Option<u16>], d: [Nullable<u8>], e: [bool] } }
+pub type D36x2 = [D36; 2];
+shape! { D37 ("struct", 0) { xs: [U8x4], ys: [U16x3], #[tagval(5)] zs: [Option<[i32; 2]>], ws: [Nullable<[D36; 2]>], k: [u8] } }
+shape! { D38 ("struct", 1) { e: [U8x0], m: [U8x2x2], f: [F32x2], s: [SVec<[i8; 2], 3>], b: [Boolx3], t: [D36x2], w: [Option<Nullable<I64x2>>] } }
+// bit flags: harness-local `bitflags!` types with undeclared bits (u8 … u64) and real generated bitmaps
+shape! { D39 ("struct", 0) { a: [FA], b: [Option<FB>], c: [Nullable<FC>], #[tagval(30)] d: [Option<Nullable<FD>>], e: [Nullable<FA>], f: [FD], h: [FAx2] } }
+shape! { D40 ("struct", 0) { a: [OnOffControlBitmap], b: [Nullable<OptionsBitmap>], c: [Option<OnOffFeature>], d: [Nullable<OnOffFeature>], e: [SVec<FB, 3>] } }
+
 macro_rules! registry {
     ($($name:ident),* $(,)?) => {
         pub const NAMES: &[&str] = &[$(concat!("@", stringify!($name))),*];
@@ -494,8 +680,85 @@ macro_rules! registry {
 
 registry!(
     D01, D02, D03, D04, D05, D06, D07, D08, D09, D10, D11, D12, D13, D14, D15, D16, D17, D18, D19, D20, D21, D22, D23, D24, D25, D26,
-    D27, D28, D29, D30, D31, E02, E03, P01, P02, P03
+    D27, D28, D29, D30, D31, E02, E03, P01, P02, P03, D32, D33, D34, D35, D36, D37, D38, D39, D40
 );
+
+/// the two shapes whose `tagval` collides with an implicit number on purpose (no round-trip claim); every other
+/// shape must be a well-formed declaration — the driver checks this expectation against `Ty.wfb` (op `wf`), so that
+/// an accidental collision in a new shape cannot silently switch the oracle off
+pub const ILL_FORMED: &[&str] = &["@D18", "@D19"];
+
+/// names of the shapes using the constructs added in round 4 (signed, floats, `[T; N]`, flags): drawn more often
+pub const NEW_NAMES: &[&str] = &["@D32", "@D33", "@D34", "@D35", "@D36", "@D37", "@D38", "@D39", "@D40"];
+
+/// one array somewhere among the top-level fields with an item removed (`delta < 0`) or an item repeated
+/// (`delta > 0`), assembled on the byte level from the real encoder's output: a `[T; N]` must pad with
+/// `T::default()` / refuse the extra item, a `Vec<T, N>` take fewer items / refuse beyond its capacity
+pub fn resized_array(r: &mut crate::rng::Rng, data: &[u8], delta: i32) -> Option<Vec<u8>> {
+    fn chunks_of(seq: &rs_matter::tlv::TLVSequence, cap: usize) -> Option<Vec<Vec<u8>>> {
+        let mut out = Vec::new();
+        let mut n = 0;
+        for c in seq.iter() {
+            n += 1;
+            if n > cap {
+                return None;
+            }
+            let c = c.ok()?;
+            let len = c.verif_container_len().ok()?;
+            out.push(c.raw_data().get(..len)?.to_vec());
+        }
+        Some(out)
+    }
+    let e = TLVElement::new(data);
+    let seq = e.container().ok()?;
+    let head = data.len().checked_sub(seq.verif_raw().len())?;
+    let fields = chunks_of(&seq, data.len() + 2)?;
+    let used: usize = fields.iter().map(|c| c.len()).sum();
+    let tail = data.get(head + used..)?.to_vec();
+    // the fields that are TLV arrays (element type 0x16)
+    let arrays: Vec<usize> = fields.iter().enumerate().filter(|(_, c)| c.first().map(|b| b & 0x1f == 0x16).unwrap_or(false)).map(|(i, _)| i).collect();
+    if arrays.is_empty() {
+        return None;
+    }
+    let at = *r.pick(&arrays);
+    let f = &fields[at];
+    let fe = TLVElement::new(f);
+    let fseq = fe.container().ok()?;
+    let fhead = f.len().checked_sub(fseq.verif_raw().len())?;
+    let mut items = chunks_of(&fseq, f.len() + 2)?;
+    let fused: usize = items.iter().map(|c| c.len()).sum();
+    let ftail = f.get(fhead + fused..)?.to_vec();
+    if delta < 0 {
+        for _ in 0..(-delta) {
+            if items.is_empty() {
+                return None;
+            }
+            let i = r.below(items.len() as u64) as usize;
+            items.remove(i);
+        }
+    } else {
+        for _ in 0..delta {
+            // an anonymous 8-bit zero when the array is empty, else a copy of one of its items
+            let it = if items.is_empty() { vec![0x04, 0x00] } else { items[r.below(items.len() as u64) as usize].clone() };
+            items.push(it);
+        }
+    }
+    let mut nf = f[..fhead].to_vec();
+    for c in items {
+        nf.extend_from_slice(&c);
+    }
+    nf.extend_from_slice(&ftail);
+    let mut out = data[..head].to_vec();
+    for (i, c) in fields.iter().enumerate() {
+        if i == at {
+            out.extend_from_slice(&nf);
+        } else {
+            out.extend_from_slice(c);
+        }
+    }
+    out.extend_from_slice(&tail);
+    Some(out)
+}
 
 /// the same top-level fields in another order, optionally with unknown fields (context tags 240..=249,
 /// used by no shape) added in front, in between and behind — assembled on the byte level from the
